@@ -64,6 +64,8 @@ type Block struct {
 	Header *types.Header
 	Hash   common.Hash
 	Logs   []types.Log // complete logs as a node would return them
+
+	rpcJSON json.RawMessage // the eth_getBlockBy... reply, rendered once
 }
 
 // Call is one served RPC call.
@@ -164,6 +166,7 @@ func (c *Chain) add(parent BlockID, number, time uint64, tag string, logs []LogS
 			Index:       uint(i),
 		})
 	}
+	b.rpcJSON = marshalBlock(b)
 	c.blocks = append(c.blocks, b)
 	c.byHash[b.Hash] = id
 	return id
@@ -430,25 +433,38 @@ func (a *ethAPI) resolve(n rpc.BlockNumber) (*Block, error) {
 	return c.canonical(uint64(n)), nil
 }
 
-func marshalBlock(b *Block, fullTx bool) (map[string]interface{}, error) {
-	if b == nil {
-		return nil, nil // JSON null: ethclient reports ethereum.NotFound
-	}
-	raw, err := json.Marshal(b.Header) // gencodec MarshalJSON: RPCMarshalHeader's fields incl. "hash"
+// marshalBlock renders the reply for a block: the header's own MarshalJSON
+// (gencodec; the fields of geth's RPCMarshalHeader incl. "hash") plus the body
+// fields of an empty block.
+func marshalBlock(b *Block) json.RawMessage {
+	raw, err := json.Marshal(b.Header)
 	if err != nil {
-		return nil, err
+		panic(err)
 	}
 	m := map[string]interface{}{}
 	if err := json.Unmarshal(raw, &m); err != nil {
-		return nil, err
+		panic(err)
 	}
 	m["size"] = hexutil.Uint64(600)
 	m["transactions"] = []interface{}{}
 	m["uncles"] = []interface{}{}
-	return m, nil
+	out, err := json.Marshal(m)
+	if err != nil {
+		panic(err)
+	}
+	return out
 }
 
-func (a *ethAPI) GetBlockByNumber(ctx context.Context, number rpc.BlockNumber, fullTx bool) (map[string]interface{}, error) {
+var jsonNull = json.RawMessage("null") // ethclient reports ethereum.NotFound
+
+func blockReply(b *Block) json.RawMessage {
+	if b == nil {
+		return jsonNull
+	}
+	return b.rpcJSON
+}
+
+func (a *ethAPI) GetBlockByNumber(ctx context.Context, number rpc.BlockNumber, fullTx bool) (json.RawMessage, error) {
 	a.c.mu.Lock()
 	defer a.c.mu.Unlock()
 	if err := a.c.enter("eth_getBlockByNumber"); err != nil {
@@ -458,10 +474,10 @@ func (a *ethAPI) GetBlockByNumber(ctx context.Context, number rpc.BlockNumber, f
 	if err != nil {
 		return nil, err
 	}
-	return marshalBlock(b, fullTx)
+	return blockReply(b), nil
 }
 
-func (a *ethAPI) GetBlockByHash(ctx context.Context, hash common.Hash, fullTx bool) (map[string]interface{}, error) {
+func (a *ethAPI) GetBlockByHash(ctx context.Context, hash common.Hash, fullTx bool) (json.RawMessage, error) {
 	a.c.mu.Lock()
 	defer a.c.mu.Unlock()
 	if err := a.c.enter("eth_getBlockByHash"); err != nil {
@@ -469,9 +485,9 @@ func (a *ethAPI) GetBlockByHash(ctx context.Context, hash common.Hash, fullTx bo
 	}
 	id, ok := a.c.byHash[hash]
 	if !ok {
-		return nil, nil
+		return jsonNull, nil
 	}
-	return marshalBlock(a.c.blocks[id], fullTx)
+	return a.c.blocks[id].rpcJSON, nil
 }
 
 func (a *ethAPI) BlockNumber(ctx context.Context) (hexutil.Uint64, error) {
